@@ -147,7 +147,7 @@ func checkC14(cfg *core.Config) int {
 		}
 	})
 	nodeDriver := filepath.Join(core.VerifDir, "node", "driver.js")
-	const baseURL, token, filename = "https://api.test/base", "tok-123", "my file é.bin"
+	const baseURL, token, filename = "https://api.test/base", "tok-123", "Q1/Q2 my file é & co #3;v=1.bin"
 	for _, p := range progs {
 		id := p.ID
 		files := pl.ProgramFiles(id)
